@@ -198,6 +198,7 @@ type kase struct {
 	Policy  int       `json:"policy"`           // http/exec/cycle: index into policies; direct: index into slots (the target)
 	DeltaNS int64     `json:"cutoff_offset_ns"` // cutoff = C + offset
 	Files   []fileRef `json:"files"`
+	ord     int       // position of the layout in its sweep (simplest first); orders the task list
 }
 
 func (k kase) cutoffNS() int64 { return cutUS*1000 + k.DeltaNS }
@@ -271,7 +272,7 @@ func buildTasks(run *ev.Run) (tasks []kase, dims map[string]any) {
 	sweep := func(mode, backend string, delta int64, ls [][]int) {
 		for p := range policies {
 			for i := range ls {
-				k := kase{Mode: mode, Backend: backend, Policy: p, DeltaNS: delta}
+				k := kase{Mode: mode, Backend: backend, Policy: p, DeltaNS: delta, ord: i}
 				k.Files = world(k.focus(), i, ls)
 				add(k)
 			}
@@ -282,7 +283,7 @@ func buildTasks(run *ev.Run) (tasks []kase, dims map[string]any) {
 	direct := func(be string, target int, offs []int64) {
 		for _, off := range offs {
 			for i := range l3 {
-				add(kase{Mode: "direct", Backend: be, Policy: target, DeltaNS: off, Files: world(target, i, l3)})
+				add(kase{Mode: "direct", Backend: be, Policy: target, DeltaNS: off, Files: world(target, i, l3), ord: i})
 			}
 		}
 	}
@@ -307,7 +308,7 @@ func buildTasks(run *ev.Run) (tasks []kase, dims map[string]any) {
 		for p := range policies {
 			for i := range l3 {
 				for j := range l2 {
-					k := kase{Mode: "http", Backend: "local", Policy: p}
+					k := kase{Mode: "http", Backend: "local", Policy: p, ord: len(l3) + i + j}
 					f := k.focus()
 					sib := f ^ 1
 					for _, t := range l3[i] {
@@ -327,6 +328,9 @@ func buildTasks(run *ev.Run) (tasks []kase, dims map[string]any) {
 			}
 		}
 	}
+	// simplest layouts first across all sweeps, so that a run stopped by the time cap has covered every
+	// mode/policy on the simpler layouts
+	sort.SliceStable(tasks, func(i, j int) bool { return tasks[i].ord < tasks[j].ord })
 	if run.Seed != 0 { // VERIF_SEED only permutes the order
 		rand.New(rand.NewSource(int64(run.Seed))).Shuffle(len(tasks), func(i, j int) { tasks[i], tasks[j] = tasks[j], tasks[i] })
 	}
@@ -1054,6 +1058,7 @@ func sample(k kase, o *outcome) map[string]any {
 
 func main() {
 	run := ev.Start("C11", "exploration")
+	tStart := time.Now()
 	scratch = fmt.Sprintf("/dev/shm/verif.c11.%d", os.Getpid())
 	os.RemoveAll(scratch)
 	must(os.MkdirAll(scratch, 0o755), "scratch")
@@ -1116,13 +1121,20 @@ func main() {
 		if os.Getenv("VERIF_C11_DEBUG") != "" {
 			fmt.Fprintf(os.Stderr, "shard %d: init %.2fs, per mode %v\n", shard, tInit.Seconds(), modeNS)
 		}
-		w.close()
-		cleanup()
+		cleanup() // no orderly close of DuckDB: the process exits now
 		pprof.StopCPUProfile()
 		run.FinishShard(counters, samples.List(), complete)
 		return
 	}
 
+	// soft time cap (a capped run reports exhaustive=false): the budgets are 60 s / 15 min
+	if os.Getenv("VERIF_DEADLINE_S") == "" {
+		limit := 45 * time.Second
+		if !run.Quick() {
+			limit = 13 * time.Minute
+		}
+		run.Deadline = tStart.Add(limit)
+	}
 	// fixtures once, in this process; the shard workers load them
 	os.Setenv("VERIF_C11_FIXTURES", filepath.Join(scratch, "fixtures"))
 	gen := &worker{root: scratch, store: filepath.Join(scratch, "fxstore")}
